@@ -133,13 +133,13 @@ func cmdAdapterDiff(args []string) error {
 		if initial {
 			ini = "true"
 		}
-		lines = append(lines, fmt.Sprintf("(%d%%nat, (%s, mkSp %s %s [%s] [%s] [%s], %s))", i, ini, z(req.MaxOutstandingMessages), z(req.MaxOutstandingBytes),
+		lines = append(lines, fmt.Sprintf("(%d%%N, (%s, mkSp %s %s [%s] [%s] [%s], %s))", i, ini, z(req.MaxOutstandingMessages), z(req.MaxOutstandingBytes),
 			strings.Join(acksC, "; "), strings.Join(modC, "; "), strings.Join(secsC, "; "), obs))
 		cases = append(cases, map[string]interface{}{"initial": initial, "max_messages": req.MaxOutstandingMessages, "max_bytes": req.MaxOutstandingBytes,
 			"ack_ids": req.AckIds, "modify_deadline_ack_ids": req.ModifyDeadlineAckIds, "modify_deadline_seconds": req.ModifyDeadlineSeconds,
 			"error": fmt.Sprint(err), "result": got})
 	}
-	body := "From MB Require Import Base Streamer Adapter.\nOpen Scope list_scope.\nDefinition cases : list (nat * acase) := [\n" +
+	body := "From MB Require Import Base Streamer Adapter.\nOpen Scope list_scope.\nDefinition cases : list (N * acase) := [\n" +
 		strings.Join(lines, ";\n") + "].\nDefinition bad := Eval vm_compute in adapter_bad cases.\nPrint bad.\n"
 	if err := os.WriteFile(filepath.Join(*out, "adapter.v"), []byte(body), 0o644); err != nil {
 		return err
